@@ -392,9 +392,9 @@ MUST_RUN_PROGRAMS = ["head3/id", "tail2/id", "repart5/id", "repart2/id", "set_in
 def program_cases(ctx, broken):
     progs = programs.valid_programs(2, "any")
     must = [p for p in progs if p.name in MUST_RUN_PROGRAMS]
-    n = 30 if ctx.quick else 1200
+    n = 30 if ctx.quick else 350
     sel = plans.seeded_slice(ctx, progs, n)
-    layouts = [0] if ctx.quick else list(range(len(plans.LAYOUTS)))
+    layouts = [0] if ctx.quick else [0, 1, 3]
     out = []
     for p in must + sel:
         for lay in layouts if p in must or not ctx.quick else [ctx.rng.randrange(len(plans.LAYOUTS))]:
